@@ -565,6 +565,9 @@ class SceneVal:
         if not hasattr(mat, "z"):
             raise ProgExc(TypeError, "SDFObject material")
         row = tuple([SDF_TAG[sdf.kind]] + list(sdf.params) + [Sym(mat.z, "ref")])
+        hook = eng.ghost.get("scene_add_hook")  # contract ghost code: an EFFECT obligation per object that reaches the scene
+        if hook is not None and not eng.spec_mode:
+            hook(eng, recv, row)
         eng.models.LIST_METHODS["append"](eng, recv.objects, [row], {})
         recv.built = False
         return None
